@@ -343,7 +343,7 @@ impl FileSystem for MockFs {
             return Err(e);
         }
         match &self.res {
-            MockRes::Data(d) => Ok(d.clone()),
+            MockRes::Data(d) => Ok(d[..d.len().min(4095)].to_vec()),
             _ => Ok(b"target".to_vec()),
         }
     }
